@@ -1,5 +1,7 @@
 """C17 -- access control is exact and applies to clients only.
 
+Four parts, run side by side (VERIF_C17_ONLY=ipset|gate|sentinel|ratelimit runs one):
+
 IpSet.tla  (internal/ipset, literal)  : TLC exhaustive over ALL lists of <= 3 entries (both
             families, host bits, /0../W, duplicates, nesting, adjacency, an unparsable entry)
             x every source; the cases TLC enumerates (Cases.tla: every ordered list of <= 2
@@ -10,11 +12,20 @@ Gate.tla   (accesslist, views, autoWire/SubPipeline, Queryer) : TLC exhaustive o
             lists x view orders x sources x births; every terminal state (GateCases.tla) is
             replayed on the real accesslist + views handlers and on the real default chain
             (defaults.RegisterUpTo("resolver") + Setup), with probes behind the gate.
+Gate.tla, sentinel family (gap C17-r3-2; MC_Gate.tla SNets / SSrcs, GateSent_*.cfg): who is a client is decided by
+            responseWriter.Reset from the peer's address type, address (127.0.0.255 = sentinel) and port (0); sources at
+            and around the sentinel x port x transport, replayed on the handlers, the default chain and the running UDP /
+            TCP listeners (harness/c17/sentinel_test.go).  Negative twins: the stream branch ignoring the port (the seeded
+            change), its view half, and the as-built port-0 datagram (known finding gate|sentinel-port0|sockets).
+RateLimit.tla, chase / internal families (gap C17-r3-1; checks/x06rl.py run_c17_tier, class c17/*): the cache's per-entry
+            client limiter never refuses or charges an internal request or the chase of a CNAME target the cache runs
+            through its internal Queryer.  Negative twins MC_NegInternal / MC_NegChase (LimitInternal).
 """
 import json
 import os
 
 import vf
+import x06rl
 
 W4 = {"hb": 2, "lb": 2, "v4": 2, "mapPat": 3}
 W5 = {"hb": 2, "lb": 3, "v4": 2, "mapPat": 7}
@@ -103,9 +114,9 @@ GATE_CHAIN = ["recovery", "metrics", "dnstap", "accesslist", "ratelimit", "refle
 GATE_CLIENT_ONLY = ["metrics", "dnstap", "accesslist", "ratelimit", "reflex", "accesslog", "views", "dns64"]
 
 
-def gate_model(ctx, cfg, timeout):
+def gate_model(ctx, cfg, timeout, workers=4):
     """Exhaustive run of Gate.tla; the Emit invariant prints every terminal state."""
-    r = ctx.tlc("IpSet", "GateCases.tla", cfg, workers=4, timeout=timeout, heap="8g")
+    r = ctx.tlc("IpSet", "GateCases.tla", cfg, workers=workers, timeout=timeout, heap="8g")
     cases = [c for c in r.printed() if isinstance(c, dict) and "req" in c and "acl" in c]
     if len(cases) < 100:
         raise vf.MachineryError("GateCases %s emitted only %d terminal states" % (cfg, len(cases)))
@@ -126,11 +137,15 @@ def gate_model(ctx, cfg, timeout):
     return cases
 
 
-def gate_replay(ctx, cases, tag, variants, full_configs):
+def gate_replay(ctx, cases, tag, variants, full_configs, family=""):
     inp = {"cases": cases, "chain": GATE_CHAIN, "clientOnly": GATE_CLIENT_ONLY, "tail": "resolver",
-           "variants": variants, "fullConfigs": full_configs}
+           "variants": variants, "fullConfigs": full_configs, "family": family}
     info = {}
-    for test, name in (("TestGateHandlers", "handlers"), ("TestGateDefaultChain", "default")):
+    drivers = [("TestGateHandlers", "handlers"), ("TestGateDefaultChain", "default")]
+    if family == "sent":
+        # what real sockets can carry of the family, on the running UDP / TCP listeners (raw socket: source port 0)
+        drivers.append(("TestGateSockets", "sockets"))
+    for test, name in drivers:
         res = ctx.go_driver("./c17", test, inp, name="gate_%s_%s" % (tag, name), timeout=1500)
         ctx.take_driver_result(res, "[Gate %s/%s] " % (tag, name))
         cnt = res.get("counters", {})
@@ -138,13 +153,54 @@ def gate_replay(ctx, cases, tag, variants, full_configs):
                       "drift_notes": res.get("drift_notes", []), "skipped": res.get("skipped", [])}
         if res.get("skipped"):
             raise vf.MachineryError("Gate replay %s/%s: %s" % (tag, name, res["skipped"][:3]))
+        # vacuity is judged on runs without a verdict (a broken tree changes the counters); the recorded port-0 finding is none
+        if [v for v in res.get("violations", []) if v.get("key") != SENT_KNOWN_KEY]:
+            continue
         if cnt.get("denied", 0) == 0 or cnt.get("allowed", 0) == 0 or cnt.get("view_answers", 0) == 0:
             raise vf.MachineryError("Gate replay %s/%s is vacuous: %s" % (tag, name, cnt))
+        if family == "sent":
+            # the shape the family exists for was driven: the datagram from 127.0.0.255:0 on a real socket (unless this host has
+            # no raw sockets) and as a writer double, and on sockets both transports
+            if name == "sockets" and cnt.get("sentinel_port0_udp", 0) + cnt.get("port0_dropped_by_listener", 0) == 0 \
+                    and not cnt.get("raw_unavailable", 0):
+                raise vf.MachineryError("Gate replay %s/%s never sent the port-0 sentinel datagram: %s" % (tag, name, cnt))
+            if name != "sockets" and cnt.get("legacy_sentinel_writer", 0) == 0:
+                raise vf.MachineryError("Gate replay %s/%s never drove a port-0 sentinel writer double: %s" % (tag, name, cnt))
+            if name == "sockets" and (cnt.get("socket_udp", 0) < 20 or cnt.get("socket_tcp", 0) < 20
+                                      or cnt.get("socket_lost", 0) > cnt.get("socket_requests", 0) // 10):
+                raise vf.MachineryError("Gate replay %s/sockets is vacuous: %s" % (tag, cnt))
         if name == "default" and (cnt.get("internal_queries", 0) == 0 or cnt.get("subpipelines_checked", 0) < 2):
             raise vf.MachineryError("Gate replay %s/default never looked at the internal sub-pipelines: %s" % (tag, cnt))
     ctx.cov["replay"]["gate_" + tag] = info
     for c in cases:
         ctx._distinct.add("gate:" + json.dumps([c["acl"], c["views"], c["req"]], sort_keys=True))
+
+
+# the sentinel family (gap C17-r3-2): sources at and around 127.0.0.255 x source port x transport
+SENT_KNOWN_KEY = "gate|sentinel-port0|sockets"    # known_findings.json: the UDP datagram from 127.0.0.255:0 taken for internal
+SENT_NEGATIVES = [("GateSent_neg_stream.cfg", "DeniedTouchesNothing"),    # seeded: the stream branch ignores the port
+                  ("GateSent_neg_view.cfg", "FirstMatchingView"),         # ... its view half
+                  ("GateSent_port0_asbuilt.cfg", "DeniedTouchesNothing")]  # the model reproduces the port-0 finding
+
+
+def gate_sentinel(ctx, thorough):
+    def neg(cfg, inv):
+        r = ctx.tlc("IpSet", "MC_Gate.tla", cfg, workers=1, timeout=300, heap="4g", must_pass=False, tag="negative", count=False)
+        if r.violated != inv:
+            raise vf.MachineryError("negative config %s did not violate %s (got %s)" % (cfg, inv, r.violated))
+
+    jobs = [lambda: gate_model(ctx, "GateSent_eph.cfg", 600, workers=2),
+            lambda: gate_model(ctx, "GateSent_port0_emit.cfg", 600, workers=2),
+            # with the candidate repair (a listener never hands a port-0 peer to the chain) every predicate holds for both ports
+            lambda: ctx.tlc("IpSet", "MC_Gate.tla", "GateSent_port0_repaired.cfg", workers=1, timeout=300, heap="4g")]
+    jobs += [(lambda c=c, i=i: neg(c, i)) for c, i in SENT_NEGATIVES]
+    out = x06rl.parallel(jobs, width=6)
+    cases = out[0] + out[1]
+    shape = [c for c in cases if c["req"]["kind"] == "client" and c["req"]["src"] in ("sent", "mapsent") and not c["allowed"]]
+    if not any(c["req"]["port"] == "eph" and c["req"]["tr"] in ("tcp", "doh") for c in shape) or \
+            not any(c["req"]["port"] == "zero" and c["req"]["tr"] == "udp" for c in shape):
+        raise vf.MachineryError("sentinel family: no denied sentinel source on a stream transport / with port 0 among the cases")
+    gate_replay(ctx, cases, "sentinel", 1, 0, family="sent")
 
 
 def gate(ctx, thorough):
@@ -161,19 +217,36 @@ def run(ctx, replay):
     ctx.cov["rule"] = ("behaviours = TLC-enumerated ipset lists (every ordered list of <= 2 entries, simulated "
                        "3-entry behaviours), each scaled to real IPv4/IPv6 at several bit offsets and replayed on "
                        "ipset.New/Contains against the naive scan; plus every terminal state of Gate.tla replayed on "
-                       "the real accesslist/views handlers and the real default chain; distinct = distinct "
-                       "(model list, placement) pairs and distinct gate outcomes")
+                       "the real accesslist/views handlers and the real default chain (the sentinel family -- sources at and "
+                       "around 127.0.0.255 x source port x transport -- also on the running UDP / TCP listeners through real "
+                       "sockets); plus TLC call orders of RateLimit.tla's chase / internal families on the real pipeline; "
+                       "distinct = distinct (model list, placement) pairs, distinct gate outcomes and distinct call orders")
     ctx.assumptions += [
         "scaling a W-bit case to 32/128 bits preserves membership (window at a bit offset, fixed base above, noise below); "
         "the model answer is cross-checked against the naive scan on every probe",
         "IPv4-mapped *prefix entries* (::ffff:a.b.c.d/n) carry no verdict: netip and net.IPNet disagree on them",
         "transports are represented by udp/tcp/doh/doq writer doubles with a chosen RemoteAddr; the owned strict "
-        "transport job (server.strictSlots) is not driven, its chain entry (ResetWire on a parsed wire request) is",
+        "transport job (server.strictSlots) is not driven by the main family, its chain entry (ResetWire on a parsed wire "
+        "request) is; the sentinel family also goes through the running UDP and TCP listeners (DoT / DoH / DoQ listeners "
+        "are not started: their peers are *net.TCPAddr / *net.UDPAddr like the plain ones)",
+        "a peer 127.0.0.255 with source port 0 on a writer double is the legacy convention for an internal writer and is "
+        "not judged; on a real UDP socket (raw socket) it is a client",
     ]
+    # the RateLimit tier's shims (per-entry limiter of the cache, strict transport job) ride along
+    ctx.overlay_tags.add("x06rl")
     if replay:
         return run_replay(ctx, replay)
-    ipset(ctx, thorough)
-    gate(ctx, thorough)
+    # four independent parts, side by side (each is mostly waiting for TLC / go test subprocesses):
+    #   ipset      IpSet.tla, the membership half
+    #   gate       Gate.tla main family: access lists x views x sources x births
+    #   sentinel   Gate.tla sentinel family (gap C17-r3-2): sources at and around 127.0.0.255 x port x transport, also on real sockets
+    #   ratelimit  RateLimit.tla chase / internal families (gap C17-r3-1): internal sub-queries and the cache's per-entry limiter
+    only = os.environ.get("VERIF_C17_ONLY", "")      # one part only (development)
+    parts = [("ipset", lambda: ipset(ctx, thorough)), ("gate", lambda: gate(ctx, thorough)),
+             ("sentinel", lambda: gate_sentinel(ctx, thorough)), ("ratelimit", lambda: x06rl.run_c17_tier(ctx))]
+    ctx.harness_prepare()
+    ctx.overlay_file()
+    x06rl.parallel([f for name, f in parts if only in ("", name)], width=4)
 
 
 def run_replay(ctx, path):
@@ -181,9 +254,17 @@ def run_replay(ctx, path):
         rec = json.load(f)
     rp = rec.get("replay", rec)
     kind = rp.get("kind")
+    if kind is None and rp.get("steps") and str(rp.get("driver", "")).startswith("pipeline"):
+        # recorded by the RateLimit part (checks/x06rl.py): a call order on the real pipeline; its small model instances
+        # (the chase family and the two mutants) are re-checked alongside
+        x06rl.C17_ONLY = True
+        ctx.tlc("RateLimit", "MC_RateLimit.tla", "MC_ChaseQ.cfg", workers=2, timeout=300, heap="2g")
+        return x06rl.run(ctx, path)
     # the model instance the recorded case belongs to, re-checked (small bounds) alongside the re-run
     if kind == "ipset":
         ctx.tlc("IpSet", "IpSet.tla", "MC_W4_L1.cfg", workers=2, timeout=300, heap="4g")
+    elif kind == "gate" and (rp.get("level") == "sockets" or "127.0.0." in str(rp.get("req", {}).get("src", ""))):
+        ctx.tlc("IpSet", "MC_Gate.tla", "GateSent_eph.cfg", workers=2, timeout=300, heap="4g")    # the sentinel family
     elif kind == "gate":
         ctx.tlc("IpSet", "MC_Gate.tla", "Gate_tiny.cfg", workers=2, timeout=300, heap="4g")
     if kind == "ipset":
